@@ -882,3 +882,54 @@ mutant('c20-tab-not-bad', ['C20'], 'bfg9000/shell/windows.py',
 mutant('c20-no-backslash-doubling', ['C20'], 'bfg9000/shell/windows.py',
        "            return m.group(1) * 2 + quote", "            return m.group(1) + quote",
        'WIN-QUOTE-TABLE')
+
+# ------------------------------------------- variants for round-1-seed rules
+twin('c03-twin-presence-guard', ['C03', 'C06'], CP,
+     "    deps.extend(getattr(rule, 'include_deps', []))\n",
+     "    if getattr(rule, 'include_deps', None):\n"
+     "        deps.extend(rule.include_deps)\n")
+twin('c02-twin-env-local', ['C02', 'C06'], CMD,
+     "        command=shell.global_env(rule.env, rule.cmds),\n"
+     "        console=rule.console,",
+     "        command=exported,\n        console=rule.console,",
+     edits=[("def ninja_command(rule, build_inputs, buildfile, env):\n",
+             "def ninja_command(rule, build_inputs, buildfile, env):\n"
+             "    exported = shell.global_env(rule.env, rule.cmds)\n"),
+            ("        command=shell.global_env(rule.env, rule.cmds),\n"
+             "        console=rule.console,",
+             "        command=exported,\n        console=rule.console,")])
+mutant('c03-conditional-include-deps', ['C03', 'C06'], CP,
+       "    implicit_deps.extend(getattr(rule, 'include_deps', []))\n",
+       "    if compiler.deps_flavor is None:\n"
+       "        implicit_deps.extend(getattr(rule, 'include_deps', []))\n",
+       {'C03': 'unconditional', 'C06': 'dep-roots'})
+mutant('c12-startswith-suffix', ['C12', 'C05', 'C11'], 'bfg9000/path.py',
+       "    def ischild(a, b):\n        for i, j in zip(a, b):\n"
+       "            if i != j:\n                return False\n        return True\n",
+       "    def ischild(a, b):\n        return b.suffix.startswith(a.suffix)\n",
+       'PATH-COMPONENTWISE')
+mutant('c09-reset-early-return', ['C09'], ENVF,
+       "    def reset(self):\n        super().clear()",
+       "    def reset(self):\n        if not self._changes:\n            return\n"
+       "        super().clear()", 'MUTATORS')
+mutant('c15-realize-early-root', ['C15'], BPF,
+       "        if self.destdir and DestDir.destdir in variables:\n"
+       "            destdir = variables[DestDir.destdir]\n"
+       "            root = destdir if root is None else destdir + root\n"
+       "        if root is None:",
+       "        if root is not None and not self.suffix:\n"
+       "            return self.__localize(root, localize)\n"
+       "        if self.destdir and DestDir.destdir in variables:\n"
+       "            destdir = variables[DestDir.destdir]\n"
+       "            root = destdir if root is None else destdir + root\n"
+       "        if root is None:", 'destdir-before')
+mutant('c17-tiebreak-flipped', ['C17'], 'bfg9000/versioning.py',
+       "        return (s.version, 1 if s.operator in ['>=', '<'] else 2)",
+       "        return (s.version, 1 if s.operator in ['>=', '<='] else 2)",
+       'PC-BOUND-TIEBREAK')
+mutant('c20-tokenize-no-halving', ['C20'], 'bfg9000/shell/windows.py',
+       "            for i in range(escapes // 2):", "            for i in range(escapes):",
+       'WIN-TOKENIZE-PARITY')
+twin('c09-twin-reset-order', ['C09'], ENVF,
+     "        super().clear()\n        super().update(self.initial)\n        self._changes = {}",
+     "        self._changes = {}\n        super().clear()\n        super().update(self.initial)")
